@@ -380,6 +380,35 @@ def check_who_may_call(model, rep):
     rep.ob('R14.5', g.key, g.where(), len(sel) == 1, 'the backend method is selected by self._method("solver", name)', statement='method-select')
 
 
+def check_project_constraints(model, rep):
+    '''R14.7 Topology.project: prescribed constraint values are never overwritten.'''
+    f = model.func('topology:Topology.project')
+    stores = [s for s in find_stmts(f.body, lambda s: isinstance(s, ast.Assign)) if isinstance(s.targets[0], ast.Subscript) and src(s.targets[0].value) == 'constrain']
+    if len(stores) < 4:
+        raise AnalysisError('Topology.project: stores into constrain not found')
+    defs = [(s.lineno, s.targets[0].id, src(s.value)) for s in find_stmts(f.body, lambda s: isinstance(s, ast.Assign)) if isinstance(s.targets[0], ast.Name)]
+
+    def alias_at(name, lineno):
+        cands = [(ln, v) for ln, n, v in defs if n == name and ln < lineno]
+        return max(cands)[1] if cands else ''
+    for s in stores:
+        aliases = {n: alias_at(n, s.lineno) for _, n, _ in defs}
+        idx = src(s.targets[0].slice)
+        expanded = aliases.get(idx) or idx
+        free_only = '~constrain.where' in expanded
+        from_constrained_solve = False
+        if isinstance(s.value, ast.Subscript) and isinstance(s.value.value, ast.Name):
+            d = aliases.get(s.value.value.id, '')
+            from_constrained_solve = '.solve(' in d and 'constrain=solvecons' in d and aliases.get('solvecons', '').startswith('constrain.copy()')
+        ok = free_only or from_constrained_solve
+        rep.ob('R14.7', f.key, f.where(s), ok,
+               (f'`{stmt_text(s)[:60]}` touches free entries only' if free_only else f'`{stmt_text(s)[:60]}` copies a solution that was solved WITH the prescribed values as constraints') if ok else
+               f'`{stmt_text(s)[:70]}` can overwrite entries that were already prescribed (no `~constrain.where` in the index and not the result of a solve constrained by them)', statement=stmt_text(s)[:80])
+    sv = [c for c in calls_in(f.node) if method_name(c) == 'solve' and any(k.arg == 'constrain' for k in c.keywords)]
+    ok = len(sv) == 1 and src(next(k.value for k in sv[0].keywords if k.arg == 'constrain')) == 'solvecons'
+    rep.ob('R14.7', f.key, f.where(sv[0]) if sv else f.where(), ok, 'the least-squares system is solved with the prescribed values as constraints', statement='solve-constrained')
+
+
 def thorough_discovery(model, rep):
     '''Every function of solver.py and matrix/* that compares something with a tolerance.'''
     for key, f in sorted(model.functions.items()):
@@ -410,6 +439,8 @@ def run(model, rep, tier):
     rep.rule('R14.3', 'error taxonomy: backend failures become MatrixError; lenient/step handlers are exact and bounded')
     rep.rule('R14.4', 'constraint writes touch exactly the prescribed / free entries')
     rep.rule('R14.5', 'who-may-call: backend solvers only behind the residual gate')
+    rep.rule('R14.6', 'sub-matrix and preconditioner caches are keyed on everything they depend on (= R15.6)')
+    rep.rule('R14.7', 'Topology.project never overwrites prescribed constraint values')
     for key in GATES:
         check_gate(model, rep, key)
     check_linear_gate(model, rep)
@@ -419,9 +450,26 @@ def run(model, rep, tier):
     check_solve_frontdoor(model, rep)
     check_constraint_writes(model, rep)
     check_who_may_call(model, rep)
+    check_project_constraints(model, rep)
+    from rules.c15 import check_base_operators
+    check_base_operators(model, _Only(rep, {'R15.6': 'R14.6'}, keep=('submatrix-cache', 'precon-cache')))
     rep.require('R14.1', 8)
     rep.require('R14.2', 3)
     rep.require('R14.3', 10)
     rep.require('R14.4', 10)
     if tier == 'thorough':
         thorough_discovery(model, rep)
+
+
+class _Only:
+    """Report proxy: file selected obligations of a shared rule under this property's rule id, drop the others."""
+
+    def __init__(self, rep, mapping, keep):
+        self._rep, self._map, self._keep = rep, mapping, keep
+
+    def ob(self, rule, construct, where, ok, detail, statement=None, **extra):
+        if statement in self._keep:
+            return self._rep.ob(self._map.get(rule, rule), construct, where, ok, detail, statement=statement, **extra)
+
+    def __getattr__(self, name):
+        return getattr(self._rep, name)
